@@ -1,6 +1,7 @@
 import HdVerif.Proofs.VR
 import HdVerif.Proofs.Aliasing
 import HdVerif.Proofs.C20Tie
+import HdVerif.Proofs.C20Tables
 import HdVerif.Model.VRGuards
 import HdVerif.Generated.T20uid
 import HdVerif.Generated.T20sites
@@ -325,99 +326,87 @@ example : ¬ validUID "2.25.01".toList := by decide
 example : ¬ validUID "2..25".toList := by decide
 example : fromUuid uuidRoot (2 ^ 128 - 1) = .ok "2.25.340282366920938463463374607431768211455".toList := by decide
 
-/-! ## copy-or-alias data flow -/
+/-! ## copy-or-alias data flow
+
+The statements are about **concrete runs** of the extracted programs on the store semantics of `Model/AliasConcrete.lean`
+(`runC`): any world of the caller `W` (any number of cells, any references among them, any cells as arguments — shared and
+nested arguments included; `W.ok`), any valuation `v` of the opaque conditions, any oracle `ch` (which stored item a subscript
+yields, which side of a merged arm is taken), any effect `w` of a write on a cell's content.  They follow from the soundness of the
+analysis for all programs (`Proofs/AliasSound.lean`: `exec_inv`, by induction over statements) and one kernel evaluation of the
+analysis per regenerated program file (`Proofs/C20Tables/*.lean`). -/
 open HdVerif.Aliasing
 
 /-- nothing was left out of the tables: every converter and both array helpers were abstracted -/
-theorem alias_extraction_complete : allSkipped = [] ∧ 60 ≤ allEntries.length := by decide
-
-set_option maxRecDepth 1000000 in
-private theorem wellformed :
-    (allEntries.all fun e => condsBelowList e.nCond e.prog && decide (0 < e.nCond)) = true := by decide +kernel
+theorem alias_extraction_complete : allSkipped = [] ∧ 60 ≤ allEntries.length := by decide +kernel
 
 private theorem wf {e : Entry} (he : e ∈ allEntries) : condsBelowList e.nCond e.prog = true ∧ 0 < e.nCond := by
-  have := List.all_eq_true.mp wellformed e he
+  have := (C20Tie.facts_of_ok (C20Tables.entry_ok he)).2.2
+  unfold wellFormed at this
   simpa using this
-
-set_option maxRecDepth 1000000 in
-private theorem table_nocopy_param :
-    (allEntries.all fun e => e.hasCopy || neverWritesInputs e) = true := by decide +kernel
-
-set_option maxRecDepth 1000000 in
-private theorem table_copy :
-    (allEntries.all fun e => !e.hasCopy || copyLeavesOriginal e) = true := by decide +kernel
-
-set_option maxRecDepth 1000000 in
-private theorem table_nocopy :
-    (allEntries.all fun e => !e.hasCopy || rebuildsContainer e || nocopyReturnsSame e) = true := by decide +kernel
 
 /-- **inputs_never_written.**  A constructor path or converter that offers no in-place mode (no `copy` parameter: the
 segmentation constructor's `_check_and_cast_pixel_array` and `_get_segment_pixel_array`, `KeyObjectSelectionDocument.
 from_dataset`, `SpecimenDescription.from_dataset`, the SR template converters, …) never alters what it was given: in every
-run — any valuation `v` of the conditions it branches on, any effect `w` of the writes it performs — every input region
-`r < nIn` ends with the content it started with. -/
+run — any world of the caller, any valuation `v` of the conditions it branches on, any oracle, any effect `w` of the writes it
+performs — every cell `c < W.base` of the caller (the arguments and everything reachable from them, whether or not shared between
+arguments) ends with the content it started with. -/
 theorem inputs_never_written (e : Entry) (he : e ∈ allEntries) (hc : e.hasCopy = false)
-    (v : Nat) (w : Nat → Nat → Nat) (store : Nat → Nat) (r : Nat) (hr : r < e.nIn) :
-    (run e.prog e.nIn v w store).store r = store r := by
-  have h := List.all_eq_true.mp table_nocopy_param e he
-  simp only [hc, Bool.false_or] at h
-  exact neverWritesInputs_sound e (wf he).1 h v w store r hr
+    (W : World) (hW : W.ok e.nIn) (v : Nat) (ch : Nat → Nat) (w : Nat → Nat → Nat) (c : Nat) (hlt : c < W.base) :
+    (runC e.prog e.nIn W v ch w).store c = W.store c :=
+  neverWritesInputs_sound e (wf he).1 ((C20Tie.facts_of_ok (C20Tables.entry_ok he)).2.1 hc) W hW v ch w c hlt
 
 /-- **copy_leaves_original.**  For every converter with a `copy` parameter, called with `copy=True` (bit 0 of the
-valuation): the original keeps its content (so do all other arguments), and what is returned is a newly allocated
-object, not the original or a part of it. -/
+valuation): every cell of the caller keeps its content, and what is returned is a cell allocated during the call, not the
+original or a part of it. -/
 theorem copy_leaves_original (e : Entry) (he : e ∈ allEntries) (hc : e.hasCopy = true)
-    (v : Nat) (hv : v.testBit 0 = true) (w : Nat → Nat → Nat) (store : Nat → Nat) :
-    (∀ r, r < e.nIn → (run e.prog e.nIn v w store).store r = store r) ∧
-    (∀ ref, (run e.prog e.nIn v w store).result = some ref → ∀ k ∈ ref.regions, e.nIn ≤ k) := by
-  have h := List.all_eq_true.mp table_copy e he
-  simp only [hc, Bool.not_true, Bool.false_or] at h
-  exact copyLeavesOriginal_sound e (wf he).1 (wf he).2 h v hv w store
+    (W : World) (hW : W.ok e.nIn) (v : Nat) (hv : v.testBit 0 = true) (ch : Nat → Nat) (w : Nat → Nat → Nat) :
+    (∀ c, c < W.base → (runC e.prog e.nIn W v ch w).store c = W.store c) ∧
+    (∀ val, (runC e.prog e.nIn W v ch w).result = some val → W.base ≤ val.cell) :=
+  copyLeavesOriginal_sound e (wf he).1 (wf he).2 ((C20Tie.facts_of_ok (C20Tables.entry_ok he)).1 hc).1 W hW v hv ch w
 
 /-- **nocopy_returns_same.**  For every converter with a `copy` parameter, called with `copy=False`: whatever it returns
-is the very object that was passed in (exactly region 0, the root itself, not a view or a may-alias).  Full statement: for *every* such
-converter.  Proved for all but `ContentSequence.from_sequence` and `MeasurementReport.from_sequence`, which return a new container
-holding the caller's items converted in place (`nocopy_content_sequence_rebuilds`); the correspondence checks item identity for it. -/
+is the very object that was passed in (the cell of argument 0, referred to directly — not a view, not an item, not a copy), although
+the call converts that object in place.  Full statement: for *every* such converter.  Proved for all but
+`ContentSequence.from_sequence` and `MeasurementReport.from_sequence`, which return a new container holding the caller's items
+converted in place (`nocopy_content_sequence_rebuilds`); the correspondence checks item identity for it. -/
 theorem nocopy_returns_same (e : Entry) (he : e ∈ allEntries) (hc : e.hasCopy = true) (hq : rebuildsContainer e = false)
-    (v : Nat) (hv : v.testBit 0 = false) (w : Nat → Nat → Nat) (store : Nat → Nat)
-    (ref : Ref) (href : (run e.prog e.nIn v w store).result = some ref) : ref = ⟨[0], true⟩ := by
-  have h := List.all_eq_true.mp table_nocopy e he
-  simp only [hc, hq, Bool.not_true, Bool.false_or] at h
-  exact nocopyReturnsSame_sound e (wf he).1 h v hv w store ref href
+    (W : World) (hW : W.ok e.nIn) (v : Nat) (hv : v.testBit 0 = false) (ch : Nat → Nat) (w : Nat → Nat → Nat)
+    (val : CVal) (hval : (runC e.prog e.nIn W v ch w).result = some val) : val = ⟨W.args.getD 0 0, true⟩ := by
+  obtain ⟨_, h2, h3⟩ := (C20Tie.facts_of_ok (C20Tables.entry_ok he)).1 hc
+  rw [hq] at h2
+  have h4 : nocopyReturnsSame e = true := by
+    cases h : nocopyReturnsSame e
+    · rw [h] at h2; cases h2
+    · rfl
+  exact nocopyReturnsSame_sound e (wf he).1 h3 h4 W hW v hv ch w val hval
 
 set_option maxRecDepth 1000000 in
-/-- the excluded converter really is different: with `copy=False` it returns a newly allocated container … -/
+/-- the excluded converter really is different: with `copy=False` the analysis finds that it returns a newly allocated
+container (a statement about the analysis, not about every run: the items are converted in place) … -/
 theorem nocopy_content_sequence_rebuilds :
     ∃ e ∈ allEntries, rebuildsContainer e = true ∧
-      ((summary e.prog e.nIn 0).2.1.map fun r => r.regions.all fun k => decide (e.nIn ≤ k)) = some true := by
+      ((analyse e.prog e.nIn 0).result.map fun r => Nat.beq (r.mask &&& (2 ^ e.nIn - 1)) 0) = some true := by
   decide +kernel
 
 /-- … and with `copy=True` it still leaves the caller's sequence and items untouched (instance of `copy_leaves_original`) -/
 theorem copy_content_sequence_untouched (e : Entry) (he : e ∈ allEntries) (_hq : rebuildsContainer e = true)
-    (hc : e.hasCopy = true) (v : Nat) (hv : v.testBit 0 = true) (w : Nat → Nat → Nat) (store : Nat → Nat) (r : Nat)
-    (hr : r < e.nIn) : (run e.prog e.nIn v w store).store r = store r :=
-  (copy_leaves_original e he hc v hv w store).1 r hr
+    (hc : e.hasCopy = true) (W : World) (hW : W.ok e.nIn) (v : Nat) (hv : v.testBit 0 = true) (ch : Nat → Nat)
+    (w : Nat → Nat → Nat) (c : Nat) (hlt : c < W.base) : (runC e.prog e.nIn W v ch w).store c = W.store c :=
+  (copy_leaves_original e he hc W hW v hv ch w).1 c hlt
 
 /-- **the segmentation constructor's pixel path.**  `_check_and_cast_pixel_array` hands on either the caller's array (a view
 of region 0) or a new one, the frame loop takes `pixel_array[plane_index]` (a view), and `_get_segment_pixel_array` turns it
 into the stored plane; both helpers are in the table, so the caller's `pixel_array` (and every other argument) is never
 written whatever dtype / rank / segmentation type / `max_fractional_value` select. -/
 theorem seg_pixel_array_never_written (e : Entry) (he : e ∈ alias_seg_sop) (hc : e.hasCopy = false)
-    (v : Nat) (w : Nat → Nat → Nat) (store : Nat → Nat) (r : Nat) (hr : r < e.nIn) :
-    (run e.prog e.nIn v w store).store r = store r :=
-  inputs_never_written e (by simp [allEntries, he]) hc v w store r hr
+    (W : World) (hW : W.ok e.nIn) (v : Nat) (ch : Nat → Nat) (w : Nat → Nat → Nat) (c : Nat) (hlt : c < W.base) :
+    (runC e.prog e.nIn W v ch w).store c = W.store c :=
+  inputs_never_written e (by simp [allEntries, he]) hc W hW v ch w c hlt
 
 /-! ### constructors -/
 
 /-- every `__init__` of base, content, seg, pm, sc, sr, ko, ann, pr, legacy was abstracted -/
 theorem ctor_extraction_complete : allCtorSkipped = [] ∧ 100 ≤ allCtors.length := by decide +kernel
-
-set_option maxRecDepth 1000000 in
-private theorem ctor_wellformed :
-    (allCtors.all fun e => condsBelowList e.nCond e.prog && decide (0 < e.nCond)) = true := by decide +kernel
-
-set_option maxRecDepth 1000000 in
-private theorem table_ctor : (allCtors.all neverWritesInputs) = true := by decide +kernel
 
 /-- **constructors_never_write_arguments** (the first clause of C20 for constructors).  For every `__init__` and alternative
 constructor of the package's public classes (139 programs regenerated from the source, none skipped) — extracted
@@ -425,19 +414,36 @@ constructor of the package's public classes (139 programs regenerated from the s
 package (`_convert_legacy_to_enhanced`, the `_add_*` helpers of the presentation states, `collect_evidence`, `encode_frame`, …),
 closures and generators are inlined to depth 4; an internal callee that is handed a reference and cannot be inlined would put the
 constructor on `allCtorSkipped` (see `ctor_extraction_complete`); external pydicom / numpy / builtin callees are assumed not to write
-their arguments and are listed per entry in the generated files — in every run (any valuation of the conditions, loops unrolled
-twice, any effect of writes) each argument region `r < nIn` ends with the content it started with.  Shared `DataElement` objects
-(`Dataset.add`) are cells: assigning an attribute of a data set writes the elements that were shared into it.
-Constructors with more than 2^5 paths (marked `(arms merged)`) have the arms of their branches merged (weak update at the join)
-instead of enumerated — a coarser but still sound abstraction of the same code. -/
+their arguments and are listed per entry in the generated files — in every run on the store semantics (any world of the caller: the
+same object passed as two arguments, a data set that is also an item of another argument, any nesting; any valuation of the
+conditions, loops unrolled twice; any oracle; any effect of writes) each cell of the caller `c < W.base` ends with the content it
+started with.  Shared `DataElement` objects (`Dataset.add`) are cells: assigning an attribute of a data set writes the elements that
+were shared into it.  Constructors with more than 2^5 paths (marked `(arms merged)`) have the arms of their branches merged (weak
+update at the join) instead of enumerated — a coarser but still sound abstraction of the same code. -/
 theorem constructors_never_write_arguments (e : Entry) (he : e ∈ allCtors)
-    (v : Nat) (w : Nat → Nat → Nat) (store : Nat → Nat) (r : Nat) (hr : r < e.nIn) :
-    (run e.prog e.nIn v w store).store r = store r := by
-  have hw := List.all_eq_true.mp ctor_wellformed e he
-  simp only [Bool.and_eq_true, decide_eq_true_eq] at hw
-  exact neverWritesInputs_sound e hw.1 (List.all_eq_true.mp table_ctor e he) v w store r hr
+    (W : World) (hW : W.ok e.nIn) (v : Nat) (ch : Nat → Nat) (w : Nat → Nat → Nat) (c : Nat) (hlt : c < W.base) :
+    (runC e.prog e.nIn W v ch w).store c = W.store c := by
+  have hok := C20Tables.ctor_ok he
+  unfold constructorOk wellFormed at hok
+  simp only [Bool.and_eq_true, decide_eq_true_eq] at hok
+  exact neverWritesInputs_sound e hok.1.1 hok.2 W hW v ch w c hlt
 
-example : (allCtors.map (·.name)).contains "Segmentation.__init__ (arms merged)" = true := by decide
+/-- **analysis_sound** (the meta-theorem the table theorems rest on, restated here so that it cannot be dropped): for **every**
+program of the language, every world of the caller and every run, either the analysis logs a write into a parameter region (or
+gives up), or its final state covers the final concrete state — in particular no cell of the caller has changed. -/
+theorem analysis_sound (p : Prog) (nIn : Nat) (W : World) (hW : W.ok nIn) (v : Nat) (ch : Nat → Nat) (w : Nat → Nat → Nat) :
+    (analyse p nIn v).overflow = true ∨ (∃ r, r < nIn ∧ (analyse p nIn v).writes.testBit r = true) ∨
+      ∀ c, c < W.base → (runC p nIn W v ch w).store c = W.store c := by
+  rcases run_inv p hW v ch w with (h | h) | h
+  · exact Or.inl h
+  · exact Or.inr (Or.inl h)
+  · exact Or.inr (Or.inr h.store)
+
+/-- the world of the theorems above is not a fiction: two arguments that are the same object, which has a nested item -/
+example : (⟨2, [(0, 1, 1)], [0, 0], fun _ => 7⟩ : World).ok 2 := by
+  refine ⟨rfl, ?_, ?_⟩ <;> simp
+
+example : (allCtors.map (·.name)).contains "Segmentation.__init__ (arms merged)" = true := by decide +kernel
 /-- the two constructor defects repaired in /repo are rejected by the check: writing an attribute of an item of an argument
 (`ImageLibraryEntryDescriptors`), and writing through a variable that may still be the argument (`Segmentation`) -/
 example : neverWritesInputs ⟨"alters the items it is given", 1, 2, false,
@@ -449,8 +455,8 @@ example : neverWritesInputs ⟨"writes into a copy", 1, 2, false,
     [.ite 1 [.assign 0 .fresh] [], .assign 0 .fresh, .write (.view 1 (.var 0))]⟩ = true := by decide
 
 /-! non-vacuity: the tables contain the programs the theorems are meant for, and the checks can fail -/
-example : (allEntries.filter (·.hasCopy)).length ≥ 40 := by decide
-example : (alias_seg_sop.map (·.name)).contains "Segmentation._get_segment_pixel_array" = true := by decide
+example : (allEntries.filter (·.hasCopy)).length ≥ 40 := by decide +kernel
+example : (alias_seg_sop.map (·.name)).contains "Segmentation._get_segment_pixel_array" = true := by decide +kernel
 /-- the defect that was repaired in /repo (`segment_array *= max_fractional_value` on a plane that aliases the caller's
 array) is rejected by the very check used above -/
 example : neverWritesInputs ⟨"in-place scaling", 1, 2, false,
@@ -470,6 +476,15 @@ example : neverWritesInputs ⟨"append to the caller's list through self", 1, 1,
     [.assign 1 .fresh, .write (.var 1), .link (.var 1) 5 (.var 0), .write (.view 5 (.var 1))]⟩ = false := by decide
 example : neverWritesInputs ⟨"append to another attribute", 1, 1, false,
     [.assign 1 .fresh, .write (.var 1), .link (.var 1) 5 (.var 0), .write (.view 6 (.var 1))]⟩ = true := by decide
+/-- storing a reference in an argument is a write of that argument -/
+example : neverWritesInputs ⟨"stores into the argument", 1, 1, false, [.link (.var 0) 5 .fresh]⟩ = false := by decide
+/-- an attribute of a new object that certainly holds a new list does not denote the object itself, whose items may be arguments
+(`self._lut[name].append(item)` in `ContentSequence`); through a holder that is only *possibly* the new object it does -/
+example : neverWritesInputs ⟨"must link", 1, 1, false,
+    [.assign 1 .fresh, .link (.var 1) 1 (.var 0), .link (.var 1) 7 .fresh, .write (.view 1 (.view 7 (.var 1)))]⟩ = true := by decide
+example : neverWritesInputs ⟨"may link", 1, 1, false,
+    [.assign 1 .fresh, .assign 2 .fresh, .link (.var 1) 1 (.var 0), .link (.join (.var 1) (.var 2)) 7 .fresh,
+     .write (.view 1 (.view 7 (.var 1)))]⟩ = false := by decide
 
 /-! ## bridges: hand-written definitions use exactly the expressions of the current source (proved in `Proofs/C20Tie.lean`) -/
 
